@@ -106,6 +106,83 @@ def is_xs(a):
     return a is not None and a[1] == "xs"
 
 
+def is_os(a):
+    return a is not None and a[1] == "os"
+
+
+# Window mode: while a harness.Space (a fixed universe of <= 16 atoms) is active, a bit whose support exceeds K is
+# kept as the integer bit set of its satisfying assignments over that universe: (universe ids, "sp", mask).  Exact.
+ACTIVE = [None]
+
+
+def _sp(mask):
+    sp = ACTIVE[0]
+    if mask == 0:
+        return ZERO
+    if mask == sp.full:
+        return ONE
+    return (sp.key, "sp", mask)
+
+
+def _to_mask(b):
+    sp = ACTIVE[0]
+    if sp is None:
+        return None
+    if b[1] == "sp":
+        return b[2] if b[0] == sp.key else None
+    return sp.bit_mask(b)
+
+
+def _sp_op(a, b, op):
+    ma, mb = _to_mask(a), _to_mask(b)
+    if ma is None or mb is None:
+        return None
+    return _sp(ma & mb if op == "and" else (ma | mb if op == "or" else ma ^ mb))
+
+
+OS_MAX = 1024  # terms kept in an or-sum
+
+
+def mk_os(terms):
+    """disjunction of exact bits whose joint support exceeds K: (atoms, "os", frozenset of terms).  Exact; exists
+    for the accumulate-then-test idiom (acc |= mismatch; ... acc == 0), where 'acc == 0' means every term is 0."""
+    by_atoms = {}
+    xs_terms = set()
+    for t in terms:
+        if t is None:
+            return None
+        if not t[0]:
+            if t[1]:
+                return ONE
+            continue
+        for u in (t[2] if t[1] == "os" else (t,)):
+            if u[1] == "xs":
+                xs_terms.add(u)
+            else:
+                by_atoms[u[0]] = by_atoms.get(u[0], 0) | u[1]
+    ts = set(xs_terms)
+    for atoms, tt in by_atoms.items():
+        c = _canon(atoms, tt)
+        if not c[0]:
+            if c[1]:
+                return ONE
+            continue
+        ts.add(c)
+    if not ts:
+        return ZERO
+    if len(ts) == 1:
+        return next(iter(ts))
+    if len(ts) > OS_MAX:
+        return None
+    atoms = tuple(sorted({x for t in ts for x in t[0]}))
+    if len(atoms) <= K and not xs_terms:
+        acc = ZERO
+        for t in ts:
+            acc = bor(acc, t)
+        return acc
+    return (atoms, "os", frozenset(ts))
+
+
 @lru_cache(maxsize=100000)
 def _anf(n, tt):
     """monomials (as bit masks over the n local atoms) of the algebraic normal form of tt"""
@@ -159,12 +236,19 @@ def bnot(a):
         return None
     if a[1] == "xs":
         return (a[0], "xs", a[2], 1 - a[3])
+    if a[1] == "os":
+        if ACTIVE[0] is not None:
+            m = _to_mask(a)
+            return None if m is None else _sp(m ^ ACTIVE[0].full)
+        return None
+    if a[1] == "sp":
+        return _sp(a[2] ^ ACTIVE[0].full) if ACTIVE[0] is not None and ACTIVE[0].key == a[0] else None
     return (a[0], a[1] ^ _full(len(a[0])))
 
 
 def _merge(a, b):
     """union support, expanded tts; None if too large"""
-    if a[1] == "xs" or b[1] == "xs":
+    if a[1] in ("xs", "os", "sp") or b[1] in ("xs", "os", "sp"):
         return None
     aa, ab = a[0], b[0]
     if aa == ab:
@@ -195,6 +279,12 @@ def band(a, b):
         return a
     m = _merge(a, b)
     if m is None:
+        if ACTIVE[0] is not None:
+            return _sp_op(a, b, "and")
+        if a[1] == "os" and b[1] != "os":
+            return mk_os([band(t, b) for t in a[2]])
+        if b[1] == "os" and a[1] != "os":
+            return mk_os([band(a, t) for t in b[2]])
         return None
     return _canon(m[0], m[1] & m[2])
 
@@ -216,7 +306,9 @@ def bor(a, b):
         return a
     m = _merge(a, b)
     if m is None:
-        return None
+        if ACTIVE[0] is not None:
+            return _sp_op(a, b, "or")
+        return mk_os([a, b])
     return _canon(m[0], m[1] | m[2])
 
 
@@ -235,6 +327,10 @@ def bxor(a, b):
         return ZERO
     m = _merge(a, b)
     if m is None:
+        if ACTIVE[0] is not None:
+            return _sp_op(a, b, "xor")
+        if a[1] in ("os", "sp") or b[1] in ("os", "sp"):
+            return None
         # keep the sum symbolic: xor-sum of small functions (exact)
         ta, ca = xs_parts(a)
         tb, cb = xs_parts(b)
@@ -268,6 +364,11 @@ def describe(b):
     """human readable form of a bit function"""
     if b is None:
         return "TOP"
+    if b[1] == "sp":
+        return "SET{%d assignments of the window}" % bin(b[2]).count("1")
+    if b[1] == "os":
+        ts = sorted(describe(t) for t in b[2])
+        return "OR{" + ", ".join(ts[:6]) + (", ..%d terms" % len(ts) if len(ts) > 6 else "") + "}"
     if b[1] == "xs":
         ms = sorted("&".join(ATOMS.name(x) for x in m) for m in b[2])
         return ("!" if b[3] else "") + "XOR{" + ", ".join(ms[:6]) + (", ..%d terms" % len(ms) if len(ms) > 6 else "") + "}"
@@ -290,6 +391,14 @@ def describe(b):
 
 def eval_bit(b, assignment):
     """assignment: dict atom id -> 0/1"""
+    if b[1] == "sp":
+        r = 0
+        for j, a in enumerate(b[0]):
+            if assignment.get(a, 0):
+                r |= 1 << j
+        return (b[2] >> r) & 1
+    if b[1] == "os":
+        return 1 if any(eval_bit(t, assignment) for t in b[2]) else 0
     if b[1] == "xs":
         v = b[3]
         for m in b[2]:
@@ -308,6 +417,21 @@ def restrict(b, asg):
     """substitute constants for some atoms (asg: atom id -> 0/1)"""
     if b is None or not b[0]:
         return b
+    if b[1] == "sp":
+        sp = ACTIVE[0]
+        if sp is None or sp.key != b[0]:
+            return None
+        m = b[2]
+        for a, v in asg.items():
+            if a in sp.var:
+                j = sp.key.index(a)
+                hi = m & sp.var[a]
+                lo = m & (sp.full ^ sp.var[a])
+                half = (hi | (hi >> (1 << j))) if v else (lo | (lo << (1 << j)))
+                m = half
+        return _sp(m)
+    if b[1] == "os":
+        return mk_os([restrict(t, asg) for t in b[2]])
     if b[1] == "xs":
         mons = {}
         const = b[3]
@@ -341,6 +465,17 @@ def restrict(b, asg):
 def sat_assignment(b):
     """some assignment (dict atom->0/1) making b true, or None"""
     if b is None:
+        return None
+    if b[1] == "sp":
+        if b[2] == 0:
+            return None
+        r = (b[2] & -b[2]).bit_length() - 1
+        return {a: (r >> j) & 1 for j, a in enumerate(b[0])}
+    if b[1] == "os":
+        for t in b[2]:
+            r = sat_assignment(t)
+            if r is not None:
+                return {x: r.get(x, 0) for x in b[0]}
         return None
     if b[1] == "xs":
         cands = [{}] + [{x: 1 for x in m} for m in sorted(b[2], key=len)[:64]]
